@@ -39,8 +39,10 @@ FullMatch(p, s) == (Len(s) + 1) \in MatchLens(p, s, 1)
    "invalid_msg"  ok False with the configured invalid_msg       "invalid_err"  InvalidInput(invalid_msg)
    "short_msg"    ok False with a too-short message              "short_err"    InvalidInput(too short ...)
    "config_err"   ConfigError: the author's own answer does not satisfy the pattern
-   cfg: [f, acceptAny, acceptNonempty, minLength, minWords, explainMin, pattern (tree or [k |-> "none"]), explainVal] *)
-Refuse(kind, how) == IF how = "err" THEN kind \o "_err" ELSE IF how = "msg" THEN kind \o "_msg" ELSE "wrong"
+   cfg: [f, acceptAny, acceptNonempty, minLength, minWords, explainMin, pattern (tree or [k |-> "none"]), explainVal, debug]
+   (debug: the grader's debug option; the debugging text itself is not part of the outcome class)               *)
+\* "raise an error ('err'), grade as incorrect but present a message ('msg' or debug=True), or just grade as incorrect (None)"
+Refuse(kind, how, debug) == IF how = "err" THEN kind \o "_err" ELSE IF how = "msg" \/ debug THEN kind \o "_msg" ELSE "wrong"
 
 Outcome(cfg, expect, input) ==
   LET any == cfg.acceptAny \/ cfg.acceptNonempty
@@ -49,9 +51,9 @@ Outcome(cfg, expect, input) ==
       ci == Clean(input, cfg.f)
   IN
   IF cfg.pattern.k # "none" /\ ~any /\ ~FullMatch(cfg.pattern, ce) THEN "config_err"
-  ELSE IF cfg.pattern.k # "none" /\ ~FullMatch(cfg.pattern, ci) THEN Refuse("invalid", cfg.explainVal)
+  ELSE IF cfg.pattern.k # "none" /\ ~FullMatch(cfg.pattern, ci) THEN Refuse("invalid", cfg.explainVal, cfg.debug)
   ELSE IF ~any THEN (IF ce = ci THEN "accept" ELSE "wrong")
-  ELSE IF Len(ci) < minLen \/ WordCount(ci, White) < cfg.minWords THEN Refuse("short", cfg.explainMin)
+  ELSE IF Len(ci) < minLen \/ WordCount(ci, White) < cfg.minWords THEN Refuse("short", cfg.explainMin, cfg.debug)
   ELSE "accept"
 
 (* ---- laws about the specification itself *)
